@@ -256,3 +256,43 @@ def _ucounts(interp, args, kwargs, node):
     """multiplicity vector of a sample (the counts np.unique(..., return_counts=True) returns)"""
     r = np_unique(interp, [as_ndarray(interp, args[0])], {"return_counts": VBool(True)}, node)
     return r.items[1]
+
+
+# ---- scalar math / constructors ----------------------------------------------------------------------------
+
+@extern("numpy.ceil")
+def np_ceil(interp, args, kwargs, node):
+    x = to_real(args[0])
+    interp.ctx.assumed.add("extern:numpy.ceil / numpy.floor are the mathematical ceiling / floor (float-as-real)")
+    return VReal(z3.ToReal(-z3.ToInt(-x)), True)
+
+
+@extern("numpy.floor")
+def np_floor(interp, args, kwargs, node):
+    v = args[0]
+    if isinstance(v, VObj):
+        return interp.born(E.opaque(interp, "numpy.floor", args, kwargs, "ndarray"))
+    x = to_real(v)
+    interp.ctx.assumed.add("extern:numpy.ceil / numpy.floor are the mathematical ceiling / floor (float-as-real)")
+    return VReal(z3.ToReal(z3.ToInt(x)), True)
+
+
+@extern("numpy.sqrt")
+def np_sqrt(interp, args, kwargs, node):
+    return E.sqrt(interp, args[0], node)
+
+
+@extern("numpy.zeros")
+def np_zeros(interp, args, kwargs, node):
+    n = args[0]
+    if not isinstance(n, VInt):
+        raise Unsupported("np.zeros with a non-integer shape")
+    dt = kwargs.get("dtype")
+    z = VInt(0, True) if (dt is not None and concrete_str(dt) == "int") else VReal(0, True)
+    ek = types_IntT(np=True) if isinstance(z, VInt) else vec.T_RealT(np=True)
+    interp.ctx.assumed.add("extern:numpy.zeros(n) is a fresh array of n zeros")
+    if not interp.spec_mode:
+        short = (interp.current_qualname or "").replace("pyrepseq.", "")
+        interp.ctx.oblige(f"{short}/call-pre[numpy.zeros.nonnegative]@L{getattr(node, 'lineno', '?')}", n.term >= 0,
+                          kind="call-pre", line=getattr(node, "lineno", None))
+    return interp.born(VList(SymSeq(n.term, lambda k: z, ek), "ndarray"))
